@@ -185,7 +185,7 @@ func rulesConc(kind string, v rulesVal) (reflect.Value, error) {
 
 const rulesKey = "k"
 
-var rulesAllCarriers = []string{"tag", "rm", "var", "map", "mapiface", "slicemap", "url", "urle", "urln", "urlne"}
+var rulesAllCarriers = []string{"tag", "rm", "var", "map", "mapiface", "slicemap", "url", "urle", "urln", "urlne", "urlw", "urlwn"}
 
 // rulesRawSafe: the value can be written into a query string as it is (DESIGN C18 carve-out: & = ? + % #)
 func rulesRawSafe(s string) bool { return !strings.ContainsAny(s, "&=?+%#") }
@@ -202,6 +202,10 @@ func rulesApplicable(carrier, kind string, v reflect.Value) bool {
 		return class == "string" && rulesRawSafe(v.String())
 	case "urle", "urlne":
 		return class == "string"
+	case "urlw", "urlwn":
+		// the whole URL is escaped (the form the repository's own tests pass): after the one decoding step the
+		// delimiters of the value are indistinguishable from those of the query, so values containing them are out
+		return class == "string" && !strings.ContainsAny(v.String(), "&=?")
 	}
 	return false
 }
@@ -282,6 +286,10 @@ func rulesCall(carrier, kind string, v reflect.Value, rules string, rng *rand.Ra
 		err = valid.Url(rulesURL(v.String(), false, true, rng), valid.RM{rulesKey: rules, "zz": "to=1~0|tkz"})
 	case "urlne":
 		err = valid.Url(rulesURL(v.String(), true, true, rng), valid.RM{rulesKey: rules, "zz": "to=1~0|tkz"})
+	case "urlw":
+		err = valid.Url(url.QueryEscape(rulesURL(v.String(), false, false, rng)), valid.RM{rulesKey: rules})
+	case "urlwn":
+		err = valid.Url(url.QueryEscape(rulesURL(v.String(), false, true, rng)), valid.RM{rulesKey: rules, "zz": "to=1~0|tkz"})
 	default:
 		panic("unknown carrier " + carrier)
 	}
@@ -321,7 +329,7 @@ func rulesStripPath(clause string) string {
 // always-violating ruled entry ("zz" in the many-parameter URL, the first map / key "z" of the map slice).
 func rulesKeep(carrier string) func(path string) bool {
 	switch carrier {
-	case "urln", "urlne":
+	case "urln", "urlne", "urlwn":
 		return func(p string) bool { return p != "zz" }
 	case "slicemap":
 		return func(p string) bool { return p == "[1]map["+rulesKey+"]" || p == "" }
